@@ -29,7 +29,7 @@ RULE = ("cases = random call histories (10-60 calls) on a pool of 2-5 live maps 
         ">= 1 refused call followed by >= 1 implicit placement or cursor probe on the same map that was compared with the model")
 ASSUMPTIONS = ["reference allocator model of DESIGN.md C02 (models/memmap.py)",
                "explicit addresses: only 'honoured exactly or rejected' is asserted; dense ratio>1 windows: no numeric alignment"]
-REQUIRED = ["refusal", "refused_calls", "must_accept", "placement", "size", "reported_resources", "reported_windows", "atomic",
+REQUIRED = ["walker_reported", "walker_maps", "refusal", "refused_calls", "must_accept", "placement", "size", "reported_resources", "reported_windows", "atomic",
             "frozen_add", "cursor_probe", "inv_disjoint", "inv_bounds"]
 
 
@@ -43,6 +43,9 @@ def n_cases(tier):
 
 
 def gen_case(rng, tier, idx):
+    if idx % 8 == 7:
+        # maps built indirectly: decoders, bridges, builders, peripherals (invariant walker installed on the class)
+        return {"kind": "hier", "root": rng.choice(["wb", "wb", "csr"]), "max_space": rng.choice([8, 10, 12, 14])}
     root_aw = rng.choice([1, 2, 3, 4, 4, 5, 6, 8, 8, 10, 12, 16])
     nmaps = rng.randint(2, 5)
     maps = []
@@ -59,8 +62,72 @@ def gen_case(rng, tier, idx):
 NAMES_BAD = [None, "", (), ("a", ""), ("a", -1), 3, ("a", 1.5), ["a"]]
 
 
+def run_hier(case, rng):
+    """Invariant walker at a hook: MemoryMap.add_resource / add_window are wrapped at class level (so calls made from
+    inside amaranth_soc - Decoder.add, WishboneCSRBridge, Builder.as_memory_map, SRAM, EventMonitor, GPIO - go through
+    it) while a whole bus hierarchy is assembled; after every call the touched map's invariants are re-walked, the
+    returned range must be reported by the non-recursive queries, and a raising call must leave them unchanged."""
+    from vmon.props import c01 as c01mod
+    mon = Mon(trace_len=20)
+    orig_res, orig_win = MemoryMap.add_resource, MemoryMap.add_window
+    st = {"maps": {}}
+
+    def wrap(orig, is_win):
+        def wrapped(self, obj, *a, **kw):
+            before = (live_resources(self), live_windows(self))
+            try:
+                out = orig(self, obj, *a, **kw)
+            except Exception as e:
+                mon.counters["walker_atomic"] += 1
+                if (live_resources(self), live_windows(self)) != before:
+                    mon.fail("walker_atomic", f"{'add_window' if is_win else 'add_resource'} raised {e!r} but changed the map")
+                raise
+            st["maps"][id(self)] = self
+            mon.log(f"{'add_window' if is_win else 'add_resource'} -> {out}")
+            check_invariants(mon, self, "map built by the toolkit")
+            rep = live_windows(self) if is_win else live_resources(self)
+            mon.ok("walker_reported", any(r[0] == id(obj) and tuple(r[2][:2]) == tuple(out[:2]) for r in rep),
+                   f"range {out} returned for {obj!r} is not what the queries report")
+            if is_win:
+                mon.ok("walker_window_frozen", obj._frozen if hasattr(obj, "_frozen") else True,
+                       "a map used as a window must be frozen")
+            return out
+        return wrapped
+
+    MemoryMap.add_resource = wrap(orig_res, False)
+    MemoryMap.add_window = wrap(orig_win, True)
+    try:
+        def build():
+            B = c01mod.Build(rng)
+            if case["root"] == "wb":
+                cdw = rng.choice([8, 16, 32])
+                wdw = rng.choice([w for w in (8, 16, 32, 64) if w >= cdw])
+                gbits = (wdw // cdw).bit_length() - 1
+                root = B.wb_tree(rng.randint(max(2, 5 - gbits), case["max_space"] - gbits), wdw, cdw, rng.randint(1, 3), 1)
+            else:
+                root = B.csr_tree(rng.randint(3, case["max_space"]), rng.choice([8, 16, 32]), rng.randint(1, 3), 1)
+            # every map that took part is frozen once it has been used as a window / handed to a bridge
+            infos = list(root.memory_map.all_resources())
+            starts = [i.start for i in infos]
+            mon.ok("walker_all_resources_sorted", starts == sorted(starts), "all_resources() of the assembled root not ascending")
+            for i, j in zip(infos, infos[1:]):
+                mon.ok("walker_all_resources_disjoint", i.end <= j.start,
+                       f"resources {i.path} [{i.start},{i.end}) and {j.path} [{j.start},{j.end}) overlap at the root")
+            return len(infos), sorted(B.kinds)
+        out = []
+        mon.run(lambda: out.append(build()))
+    finally:
+        MemoryMap.add_resource, MemoryMap.add_window = orig_res, orig_win
+    mon.count("walker_maps", len(st["maps"]))
+    summary = {"kind": "hier", "root": case["root"], "max_space": case["max_space"], "stim": case["stim_seed"],
+               "built": out[0] if out else None}
+    return mon.result(nontrivial=len(st["maps"]) >= 3, summary=summary)
+
+
 def run_case(case):
     rng = random.Random(case["stim_seed"])
+    if case.get("kind") == "hier":
+        return run_hier(case, rng)
     mon = Mon(trace_len=30)
     lives, models = [], []
     for k, d in enumerate(case["maps"]):
